@@ -2,6 +2,7 @@ package main
 
 import (
 	"fmt"
+	"math/rand"
 	"path/filepath"
 	"reflect"
 
@@ -106,6 +107,7 @@ func runC08(r *vf.Run) {
 				e = gen.Expr(rng, A, A.ColNames(), rng.Intn(4), 3)
 				gb = gen.GroupBy(rng, A, rng.Intn(5), 5000)
 			}
+			e = e.Clone() // no shared nodes: the in-place edits below must hit exactly one place in both trees
 			// the Query value under test, with spare capacity in the group-by slice
 			gbv := make([]string, len(gb), len(gb)+4)
 			copy(gbv, gb)
@@ -119,6 +121,17 @@ func runC08(r *vf.Run) {
 			steps := 2 + rng.Intn(4)
 			var history []string
 			for s := 0; s < steps; s++ {
+				if s > 0 && qi%3 == 1 && rng.Intn(2) == 0 {
+					// the caller edits its Query value in place between two executions (e.g. loops over values with one
+					// query object): the next execution must answer the query as it is NOW
+					what := editInPlace(rng, e, q, A)
+					gb = append([]string{}, q.GroupBy...)
+					snapE = oracle.FromUpdog(q.Expr)
+					snapGB = append([]string{}, q.GroupBy...)
+					snapNil = q.GroupBy == nil
+					history = append(history, "EDIT:"+what)
+					r.Count("in_place_edits_between_executions", 1)
+				}
 				var t target
 				switch rng.Intn(3) {
 				case 0:
@@ -170,6 +183,94 @@ func runC08(r *vf.Run) {
 		r.Count("dataset_pairs", 1)
 	})
 	racePass(r)
+	r.Floor("query values edited in place between executions", r.GetCount("in_place_edits_between_executions") > 0)
 	r.Floor("grouped query executed >= 3 times across two indexes", r.GetCount("grouped_queries_executed_3plus_times") > 0)
 	r.Floor("an execution in between failed (index lacks a column)", r.GetCount("executions_expected_to_fail_in_between") > 0)
+}
+
+// editInPlace applies one random edit to the library query IN PLACE and the same edit to the reference tree (both
+// have the same shape by construction): another value or column in a leaf, an operand appended to / replaced in /
+// removed from an AND/OR, the operand of a NOT replaced, a group-by column replaced or appended.
+func editInPlace(rng *rand.Rand, e *oracle.Expr, q *updog.Query, ds *gen.Dataset) string {
+	cols := ds.ColNames()
+	if len(q.GroupBy) > 0 && rng.Intn(4) == 0 {
+		c := cols[rng.Intn(len(cols))]
+		if rng.Intn(2) == 0 {
+			q.GroupBy[rng.Intn(len(q.GroupBy))] = c
+			return "group-by column replaced"
+		}
+		if len(q.GroupBy) < 4 && len(ds.Vals[c]) < 50 {
+			q.GroupBy = append(q.GroupBy, c)
+			return "group-by column appended"
+		}
+	}
+	type pair struct {
+		o *oracle.Expr
+		u updog.Expression
+	}
+	var nodes []pair
+	var walk func(o *oracle.Expr, u updog.Expression)
+	walk = func(o *oracle.Expr, u updog.Expression) {
+		nodes = append(nodes, pair{o, u})
+		switch v := u.(type) {
+		case *updog.ExprNot:
+			walk(o.Kids[0], v.Expr)
+		case *updog.ExprAnd:
+			for i := range v.Exprs {
+				walk(o.Kids[i], v.Exprs[i])
+			}
+		case *updog.ExprOr:
+			for i := range v.Exprs {
+				walk(o.Kids[i], v.Exprs[i])
+			}
+		}
+	}
+	walk(e, q.Expr)
+	n := nodes[rng.Intn(len(nodes))]
+	leaf := func() (*oracle.Expr, updog.Expression) {
+		l := gen.Leaf(rng, ds, cols)
+		return l, &updog.ExprEqual{Column: l.Col, Value: l.Val}
+	}
+	switch u := n.u.(type) {
+	case *updog.ExprEqual:
+		l := gen.Leaf(rng, ds, cols)
+		if rng.Intn(3) == 0 {
+			n.o.Col, u.Column = l.Col, l.Col
+		}
+		n.o.Val, u.Value = l.Val, l.Val
+		return "leaf value/column changed"
+	case *updog.ExprNot:
+		lo, lu := leaf()
+		n.o.Kids[0], u.Expr = lo, lu
+		return "operand of NOT replaced"
+	case *updog.ExprAnd:
+		lo, lu := leaf()
+		switch k := rng.Intn(3); {
+		case k == 0 && len(u.Exprs) > 1:
+			n.o.Kids, u.Exprs = n.o.Kids[:len(n.o.Kids)-1], u.Exprs[:len(u.Exprs)-1]
+			return "last AND operand removed"
+		case k == 1:
+			i := rng.Intn(len(u.Exprs))
+			n.o.Kids[i], u.Exprs[i] = lo, lu
+			return "AND operand replaced"
+		default:
+			n.o.Kids, u.Exprs = append(n.o.Kids, lo), append(u.Exprs, lu)
+			return "AND operand appended"
+		}
+	case *updog.ExprOr:
+		lo, lu := leaf()
+		switch k := rng.Intn(3); {
+		case k == 0 && len(u.Exprs) > 1:
+			n.o.Kids, u.Exprs = n.o.Kids[:len(n.o.Kids)-1], u.Exprs[:len(u.Exprs)-1]
+			return "last OR operand removed"
+		case k == 1:
+			i := rng.Intn(len(u.Exprs))
+			n.o.Kids[i], u.Exprs[i] = lo, lu
+			return "OR operand replaced"
+		default:
+			n.o.Kids, u.Exprs = append(n.o.Kids, lo), append(u.Exprs, lu)
+			return "OR operand appended"
+		}
+	}
+	return "none"
 }
